@@ -159,7 +159,7 @@ mutual
     keys are distinct -/
 def TreeOKG (st : Store) : GraphT → Prop
   | .mk gid _ inits nodes _ =>
-    (∀ kv ∈ inits, kv.2 < st.nv ∧ (st.vals kv.2).name = some kv.1) ∧ (inits.map (·.1)).Nodup ∧
+    (∀ kv ∈ inits, kv.2 < st.nv ∧ (st.vals kv.2).name = some kv.1 ∧ kv.1 ≠ "") ∧ (inits.map (·.1)).Nodup ∧
     TreeOKNs st (some gid) nodes
 def TreeOKNs (st : Store) (owner : Option Nat) : List NodeT → Prop
   | [] => True
@@ -177,7 +177,8 @@ theorem TreeOKG.keep {st st' : Store} (hle : st.nv ≤ st'.nv)
     ∀ (g : GraphT), TreeOKG st g → TreeOKG st' g
   | .mk gid _ inits nodes _, h => by
     simp only [TreeOKG] at h ⊢
-    exact ⟨fun kv hkv => ⟨Nat.lt_of_lt_of_le (h.1 kv hkv).1 hle, by rw [hn _ (h.1 kv hkv).1]; exact (h.1 kv hkv).2⟩,
+    exact ⟨fun kv hkv => ⟨Nat.lt_of_lt_of_le (h.1 kv hkv).1 hle, by rw [hn _ (h.1 kv hkv).1]; exact (h.1 kv hkv).2.1,
+        (h.1 kv hkv).2.2⟩,
       h.2.1, TreeOKNs.keep hle hn _ nodes h.2.2⟩
 theorem TreeOKNs.keep {st st' : Store} (hle : st.nv ≤ st'.nv)
     (hn : ∀ v, v < st.nv → (st'.vals v).name = (st.vals v).name) :
@@ -247,21 +248,21 @@ theorem dictInsert_keys (d : List (Name × Nat)) (k : Name) (v : Nat) (hd : (d.m
 
 theorem initDict_keys (st : Store) :
     ∀ (vs : List Nat) (d : List (Name × Nat)), (d.map (·.1)).Nodup →
-      (∀ e ∈ d, (st.vals e.2).name = some e.1) → (∀ v ∈ vs, ∃ x, (st.vals v).name = some x) →
-      ((initDict st d vs).map (·.1)).Nodup ∧ ∀ e ∈ initDict st d vs, (st.vals e.2).name = some e.1 := by
+      (∀ e ∈ d, (st.vals e.2).name = some e.1 ∧ e.1 ≠ "") → (∀ v ∈ vs, ∃ x, x ≠ "" ∧ (st.vals v).name = some x) →
+      ((initDict st d vs).map (·.1)).Nodup ∧ ∀ e ∈ initDict st d vs, (st.vals e.2).name = some e.1 ∧ e.1 ≠ "" := by
   intro vs
   induction vs with
   | nil => intro d hd hn _; exact ⟨hd, hn⟩
   | cons v vs ih =>
     intro d hd hn hv
     simp only [initDict]
-    obtain ⟨x, hx⟩ := hv v (by simp)
+    obtain ⟨x, hxne, hx⟩ := hv v (by simp)
     obtain ⟨k1, k2⟩ := dictInsert_keys d ((st.vals v).name.getD "") v hd
     apply ih _ k1
     · intro e he
       rcases k2 e he with h | h
       · exact hn e h
-      · subst h; simp [hx]
+      · subst h; simp [hx, hxne]
     · exact fun w hw => hv w (by simp [hw])
 
 /-! ### the mutual induction -/
@@ -293,14 +294,14 @@ theorem deserGraph_tree :
     -- names of the initializer values, seen from the store handed to `mkGraph`
     have hiv : ∀ v ∈ (deserInits (deserInputs st inputs).1 (inputTable inputs (deserInputs st inputs).2)
         (vinfoTable vinfo) inits).2.2, v < (deserOutputs st4 tbl4 outputs).1.nv ∧
-        ∃ x, ((deserOutputs st4 tbl4 outputs).1.vals v).name = some x := by
+        ∃ x, x ≠ "" ∧ ((deserOutputs st4 tbl4 outputs).1.vals v).name = some x := by
       intro v hv
-      obtain ⟨x, hx⟩ := miv v hv
+      obtain ⟨x, hxne, hx⟩ := miv v hv
       have hlt := ok2.lt _ hx
       have h23 := q3.names v hlt
       have h34 := m4.names v (Nat.lt_of_lt_of_le hlt q3.nv_le)
       have h45 := q5.names v (Nat.lt_of_lt_of_le hlt (Nat.le_trans q3.nv_le m4.nv_le))
-      refine ⟨Nat.lt_of_lt_of_le hlt (Nat.le_trans q3.nv_le (Nat.le_trans m4.nv_le q5.nv_le)), x, ?_⟩
+      refine ⟨Nat.lt_of_lt_of_le hlt (Nat.le_trans q3.nv_le (Nat.le_trans m4.nv_le q5.nv_le)), x, hxne, ?_⟩
       rw [h45, h34, h23]
       exact n2 _ hx
     have e1 : st' = (mkGraph (deserOutputs st4 tbl4 outputs).1 (deserInputs st inputs).2
@@ -331,13 +332,13 @@ theorem deserGraph_tree :
       (deserInits (deserInputs st inputs).1 (inputTable inputs (deserInputs st inputs).2)
         (vinfoTable vinfo) inits).2.2 [] (by simp) (fun _ he => by simp at he)
       (fun v hv => by
-        obtain ⟨_, x, hx⟩ := hiv v hv
-        exact ⟨x, by rw [hnmS]; exact hx⟩)
+        obtain ⟨_, x, hxne, hx⟩ := hiv v hv
+        exact ⟨x, hxne, by rw [hnmS]; exact hx⟩)
     refine ⟨fun kv hkv => ?_, k1, ?_⟩
     · have hm := mkGraphInits_sub _ _ _ _ kv hkv
-      refine ⟨by rw [c1]; exact (hiv _ hm).1, ?_⟩
+      refine ⟨by rw [c1]; exact (hiv _ hm).1, ?_, (k2 kv hkv).2⟩
       rw [hnm6, ← hnmS]
-      exact k2 kv hkv
+      exact (k2 kv hkv).1
     · apply TreeOKNs_setGraph
       refine TreeOKNs.keep (st := st4) ?_ ?_ none ns t4
       · rw [c1]; exact q5.nv_le
